@@ -81,7 +81,11 @@ Definition descs_of (v : gval) : option (list Z) :=
 
 (* nil-like assignment values give no values *)
 Definition nil_like (v : gval) : bool :=
-  match v with VNil => true | VSlice _ true _ | VList true _ | VOther _ true => true | _ => false end.
+  match v with
+  | VNil => true | VSlice _ true _ | VList true _ => true
+  | VOther t true => match t with Tmap | Tptr | Tchan | TSother => true | _ => false end
+  | _ => false
+  end.
 
 (* ---------- what an expression denotes ---------- *)
 Inductive esem :=
